@@ -4,6 +4,7 @@ package main
 
 import (
 	"fmt"
+	"hash/fnv"
 	"math/big"
 	"sort"
 	"strings"
@@ -75,6 +76,7 @@ type Term struct {
 	Pats  [][]*Term // quantifier patterns
 	open  bool      // contains a free bound variable
 	key   string
+	shash uint64 // structural hash (names and shape only)
 }
 
 type TermStore struct {
@@ -130,6 +132,39 @@ func (ts *TermStore) intern(t *Term) *Term {
 	ts.nextID++
 	t.id = ts.nextID
 	t.key = k
+	// structural hash: depends on the shape and the names only, never on allocation order
+	{
+		h := fnv.New64a()
+		h.Write([]byte(t.Op))
+		h.Write([]byte{0})
+		h.Write([]byte(t.Name))
+		h.Write([]byte{0})
+		if t.Int != nil {
+			h.Write([]byte(t.Int.String()))
+		}
+		h.Write([]byte{0})
+		h.Write([]byte(t.Sort.String()))
+		var buf [8]byte
+		put := func(x uint64) {
+			for i := 0; i < 8; i++ {
+				buf[i] = byte(x >> (8 * i))
+			}
+			h.Write(buf[:])
+		}
+		for _, a := range t.Args {
+			put(a.shash)
+		}
+		for _, a := range t.Bound {
+			put(a.shash)
+		}
+		for _, p := range t.Pats {
+			h.Write([]byte{1})
+			for _, a := range p {
+				put(a.shash)
+			}
+		}
+		t.shash = h.Sum64()
+	}
 	for _, a := range t.Args {
 		if a.open {
 			t.open = true
@@ -757,6 +792,11 @@ func abbreviate(v string) string {
 }
 
 func (sc *Script) Render(logic string, extraAxioms []*Term, wantModel bool) string {
+	// bound variables made while rendering (index and heap facts) are local to this script: they are numbered from a
+	// fixed base, above those of the terms, so that the text does not depend on what was rendered before
+	savedBV := TS.fresh["bv"]
+	TS.fresh["bv"] = 5000000
+	defer func() { TS.fresh["bv"] = savedBV }()
 	var order []*Term
 	seen := map[*Term]bool{}
 	all := append(append([]*Term{}, extraAxioms...), sc.Asserts...)
@@ -776,7 +816,7 @@ func (sc *Script) Render(logic string, extraAxioms []*Term, wantModel bool) stri
 	}
 	var litAx []*Term
 	if len(lits) > 0 {
-		sort.Slice(lits, func(i, j int) bool { return lits[i].id < lits[j].id })
+		sort.Slice(lits, func(i, j int) bool { return strLits[lits[i]] < strLits[lits[j]] })
 		for _, l := range lits {
 			v := strLits[l]
 			litAx = append(litAx, Eq(UF("str_len", IntSort, l), IntLit(int64(len(v)))))
@@ -921,7 +961,7 @@ func (sc *Script) Render(logic string, extraAxioms []*Term, wantModel bool) stri
 		if refc[t] < 2 {
 			continue
 		}
-		n := fmt.Sprintf("n%d", t.id)
+		n := fmt.Sprintf("n%d", len(names)+1)
 		fmt.Fprintf(&sb, "(define-fun %s () %s %s)\n", n, t.Sort, t.inline(names))
 		names[t] = n
 	}
